@@ -305,6 +305,10 @@ func (x *Unit) spField(st *State, v Val, name string, c *specCtx, e ast.Node) Va
 		return Val{x.fresh("bad", SInt), nil}
 	}
 	obj, path, _ := types.LookupFieldOrMethod(v.Typ, true, c.pkgOf(v.Typ), name)
+	if m, ok := obj.(*types.Func); ok && len(path) == 1 && !isIface(v.Typ) {
+		// a method value (identity only: the same method of the same object)
+		return x.methodValue(v, m, m.Type())
+	}
 	if _, ok := obj.(*types.Var); !ok {
 		x.specErr(e, "no field %s in %v", name, v.Typ)
 		return Val{x.fresh("bad", SInt), nil}
